@@ -26,6 +26,8 @@ TAGS=verif
 [ "$FLAVOUR" = seam ] && TAGS="verif,verifseam"
 RFLAG=""
 [ "$RACE" = race ] && RFLAG="-race"
+# coverage of the interpreter's code by a workload (development aid): VERIF_COVER=1 GOCOVERDIR=<dir> ./check.sh ...
+[ -n "${VERIF_COVER:-}" ] && RFLAG="$RFLAG -cover -coverpkg=./...,github.com/Syuparn/pangaea/..."
 # HTTP front-end: an add-only overlay file exposes the echo router of a server object.
 # If the tree's http package has changed shape so that the overlay does not compile,
 # build without it (the HTTP workloads then report themselves unavailable).
